@@ -158,6 +158,12 @@ Fixpoint fault_walk (fin_ : list micro) (ms : list micro) (at_commit : bool) (p 
           if at_commit then
             match m with
             | Commit | CondCommit _ => Some [Step m]
+            (* an executemany over no rows is a step the observer of the statement stream does not count *)
+            | ExecMany [] =>
+                match fault_walk fin_ rest at_commit O with
+                | Some r => Some (Step m :: r)
+                | None => None
+                end
             | _ => None
             end
           else
